@@ -318,10 +318,10 @@ impl TypeContext {
         let structs = ctx.lower_all_structs(ast_structs.into_iter());
         let opaques = ctx.lower_all_opaques(ast_opaques.into_iter());
         let enums = ctx.lower_all_enums(ast_enums.into_iter());
-        let traits = ctx.lower_all_traits(ast_traits.into_iter()).unwrap();
+        let traits = ctx.lower_all_traits(ast_traits.into_iter());
 
-        match (out_structs, structs, opaques, enums) {
-            (Ok(out_structs), Ok(structs), Ok(opaques), Ok(enums)) => {
+        match (out_structs, structs, opaques, enums, traits) {
+            (Ok(out_structs), Ok(structs), Ok(opaques), Ok(enums), Ok(traits)) => {
                 let res = Self {
                     out_structs,
                     structs,
